@@ -11,7 +11,10 @@ Mains == [ m1 |-> [vars |-> {"A"}, refs |-> {}, kinds |-> TRUE],
            m2 |-> [vars |-> {"A"}, refs |-> {R("U1", "same")}, kinds |-> TRUE],
            m3 |-> [vars |-> {"A"}, refs |-> {R("U1", "rel")}, kinds |-> TRUE],
            m4 |-> [vars |-> {}, refs |-> {}, kinds |-> FALSE],
-           m5 |-> [vars |-> {"A"}, refs |-> {R("U9", "same")}, kinds |-> TRUE] ]
+           m5 |-> [vars |-> {"A"}, refs |-> {R("U9", "same")}, kinds |-> TRUE],
+           \* references inside nthChild.ofRule: to an undefined utility, to a defined one
+           m6 |-> [vars |-> {"A"}, refs |-> {R("U9", "nthof")}, kinds |-> TRUE],
+           m7 |-> [vars |-> {"A"}, refs |-> {R("U1", "nthof")}, kinds |-> TRUE] ]
 Utils == [ u0 |-> <<>>,
            u1 |-> [x \in {"U1"} |-> U({}, {})],
            u2 |-> ("U1" :> U({R("U2", "same")}, {})) @@ ("U2" :> U({}, {})),
@@ -25,9 +28,14 @@ Utils == [ u0 |-> <<>>,
            u9  |-> ("U1" :> U({R("U3", "same"), R("U2", "same")}, {})) @@ ("U2" :> U({R("U1", "same")}, {})) @@ ("U3" :> U({}, {})),
            u10 |-> ("U1" :> U({R("U2", "same"), R("U3", "same")}, {})) @@ ("U2" :> U({}, {})) @@ ("U3" :> U({R("U1", "same")}, {})),
            u11 |-> ("U1" :> U({R("U2", "same"), R("U9", "same")}, {})) @@ ("U2" :> U({}, {})),
-           u12 |-> ("U1" :> U({R("U2", "same"), R("U3", "same")}, {})) @@ ("U2" :> U({}, {})) @@ ("U3" :> U({R("U2", "same")}, {})) ]
-Cons == [ c0 |-> [keys |-> {}, vars |-> {}], c1 |-> [keys |-> {"A"}, vars |-> {}],
-          c2 |-> [keys |-> {"B"}, vars |-> {}], c3 |-> [keys |-> {"A"}, vars |-> {"C"}] ]
+           u12 |-> ("U1" :> U({R("U2", "same"), R("U3", "same")}, {})) @@ ("U2" :> U({}, {})) @@ ("U3" :> U({R("U2", "same")}, {})),
+           \* an undefined utility named inside nthChild.ofRule of a utility
+           u13 |-> [x \in {"U1"} |-> U({R("U9", "nthof")}, {})] ]
+Cons == [ c0 |-> [keys |-> {}, vars |-> {}, refs |-> {}], c1 |-> [keys |-> {"A"}, vars |-> {}, refs |-> {}],
+          c2 |-> [keys |-> {"B"}, vars |-> {}, refs |-> {}], c3 |-> [keys |-> {"A"}, vars |-> {"C"}, refs |-> {}],
+          \* constraints that name an undefined utility: inside nthChild.ofRule, directly
+          c4 |-> [keys |-> {"A"}, vars |-> {}, refs |-> {R("U9", "nthof")}],
+          c5 |-> [keys |-> {"A"}, vars |-> {}, refs |-> {R("U9", "same")}] ]
 T(src, rw) == [src |-> src, rewriters |-> rw]
 Trans == [ t0 |-> <<>>,
            t1 |-> [x \in {"X"} |-> T("A", {})],
@@ -45,18 +53,28 @@ Fixes == [ f0 |-> [vars |-> {}, form |-> "string"], f1 |-> [vars |-> {"A"}, form
            f4 |-> [vars |-> {"X"}, form |-> "object"], f5 |-> [vars |-> {"A"}, form |-> "object"],
            f6 |-> [vars |-> {"C"}, form |-> "string"] ]
 \* r3: the rewriter's fix uses a variable captured by the enclosing rule (it sees the enclosing environment)
-Rews == [ r0 |-> <<>>, r1 |-> [x \in {"R1"} |-> [hasFix |-> TRUE]], r2 |-> [x \in {"R1"} |-> [hasFix |-> FALSE]],
-          r3 |-> [x \in {"R1"} |-> [hasFix |-> TRUE]] ]
+Rews == [ r0 |-> <<>>, r1 |-> [x \in {"R1"} |-> [hasFix |-> TRUE, refs |-> {}]], r2 |-> [x \in {"R1"} |-> [hasFix |-> FALSE, refs |-> {}]],
+          r3 |-> [x \in {"R1"} |-> [hasFix |-> TRUE, refs |-> {}]],
+          \* rewriters whose rule names an undefined utility: inside nthChild.ofRule, directly
+          r4 |-> [x \in {"R1"} |-> [hasFix |-> TRUE, refs |-> {R("U9", "nthof")}]],
+          r5 |-> [x \in {"R1"} |-> [hasFix |-> TRUE, refs |-> {R("U9", "same")}]] ]
 
 VARIABLES m, u, c, t, f, r
 vars == <<m, u, c, t, f, r>>
-Init == /\ m \in DOMAIN Mains /\ u \in DOMAIN Utils /\ c \in DOMAIN Cons
-        /\ t \in DOMAIN Trans /\ f \in DOMAIN Fixes /\ r \in DOMAIN Rews
+\* the variants added for references inside nthChild.ofRule / in constraints / in rewriters are combined with a
+\* reduced set of the other parts; all earlier variants are combined with each other in full
+ExtM == {"m6", "m7"}  ExtU == {"u13"}  ExtC == {"c4", "c5"}  ExtR == {"r4", "r5"}
+Small == [m |-> {"m1", "m2"}, u |-> {"u0", "u1", "u2"}, c |-> {"c0", "c1"}, t |-> {"t0", "t1", "t7"}, f |-> {"f0", "f1", "f2"}, r |-> {"r0", "r1"}]
+Init == \/ /\ m \in DOMAIN Mains \ ExtM /\ u \in DOMAIN Utils \ ExtU /\ c \in DOMAIN Cons \ ExtC
+           /\ t \in DOMAIN Trans /\ f \in DOMAIN Fixes /\ r \in DOMAIN Rews \ ExtR
+        \/ /\ m \in Small.m \cup ExtM /\ u \in Small.u \cup ExtU /\ c \in Small.c \cup ExtC
+           /\ t \in Small.t /\ f \in Small.f /\ r \in Small.r \cup ExtR
+           /\ (m \in ExtM \/ u \in ExtU \/ c \in ExtC \/ r \in ExtR)
 Next == UNCHANGED vars
 Spec == Init /\ [][Next]_vars
 
 Doc == [ mainVars |-> Mains[m].vars, mainRefs |-> Mains[m].refs, hasKinds |-> Mains[m].kinds,
-         utils |-> Utils[u], consKeys |-> Cons[c].keys, consVars |-> Cons[c].vars,
+         utils |-> Utils[u], consKeys |-> Cons[c].keys, consVars |-> Cons[c].vars, consRefs |-> Cons[c].refs,
          trans |-> Trans[t], fixVars |-> Fixes[f].vars, fixForm |-> Fixes[f].form, rewriters |-> Rews[r] ]
 
 AcceptAgree == AcceptImpl(Doc) = Accept(Doc)
